@@ -31,8 +31,13 @@ def _target_names(t):
     return []
 
 
-def defs_of_node(n):
-    """definitions of simple local names made by CFG node n: list of (name, value_expr|None, kind)"""
+def _self_attr(t):
+    return isinstance(t, ast.Attribute) and isinstance(t.value, ast.Name) and t.value.id == 'self'
+
+
+def defs_of_node(n, track_self=False):
+    """definitions of simple local names made by CFG node n: list of (name, value_expr|None, kind);
+    with track_self also `self.attr = value` as the pseudo-variable 'self.attr'"""
     out = []
     a = n.ast
     if a is None:
@@ -50,6 +55,8 @@ def defs_of_node(n):
             for t in a.targets:
                 if isinstance(t, ast.Name):
                     out.append((t.id, a.value, 'assign'))
+                elif track_self and _self_attr(t):
+                    out.append(('self.' + t.attr, a.value, 'assign'))
                 else:
                     for nm in _target_names(t):
                         out.append((nm, a.value, 'unpack'))
@@ -59,6 +66,8 @@ def defs_of_node(n):
         elif isinstance(a, ast.AugAssign):
             for nm in _target_names(a.target):
                 out.append((nm, a, 'aug'))
+            if track_self and _self_attr(a.target):
+                out.append(('self.' + a.target.attr, a, 'aug'))
         elif isinstance(a, (ast.With, ast.AsyncWith)):
             for it in a.items:
                 if it.optional_vars is not None:
@@ -77,8 +86,9 @@ def defs_of_node(n):
 
 
 class ReachingDefs:
-    def __init__(self, fn, cfg=None):
+    def __init__(self, fn, cfg=None, track_self=False):
         self.fn = fn
+        self.track_self = track_self
         self.cfg = cfg or build_cfg(fn)
         g = self.cfg
         self.defs = []            # all Def objects
@@ -89,7 +99,7 @@ class ReachingDefs:
         self.param_defs = [Def(p, -1, None, 'param') for p in self.params]
         self.defs += self.param_defs
         for n in g.nodes:
-            ds = [Def(nm, n.id, val, kind, n.ast) for (nm, val, kind) in defs_of_node(n)]
+            ds = [Def(nm, n.id, val, kind, n.ast) for (nm, val, kind) in defs_of_node(n, track_self)]
             self.node_defs[n.id] = ds
             self.defs += ds
         # iterate
@@ -151,6 +161,8 @@ class ReachingDefs:
                         out |= self.leaves(val, d.node_id, depth - 1, _seen)
                         if d.kind == 'aug':
                             out |= self.leaves(d.value.target, d.node_id, depth - 1, _seen)
+                        if self.control:
+                            out |= self._control_leaves(d.node_id, depth - 1, _seen)
                         if d.kind == 'for':
                             out.add(('for', unparse(d.value)))
             elif isinstance(sub, ast.Constant):
@@ -158,7 +170,32 @@ class ReachingDefs:
             elif isinstance(sub, ast.Call):
                 out.add(('call', unparse(sub.func)))
             elif isinstance(sub, ast.Attribute):
-                out.add(('attr', unparse(sub)))
+                ds = self.reaching(node_id, unparse(sub)) if (self.track_self and _self_attr(sub)) else []
+                if not ds:
+                    out.add(('attr', unparse(sub)))
+                for d in ds:
+                    if (d, node_id) in _seen or depth <= 0:
+                        out.add(('cut', d.name))
+                        continue
+                    _seen.add((d, node_id))
+                    val = d.value.value if d.kind == 'aug' else d.value
+                    out |= self.leaves(val, d.node_id, depth - 1, _seen)
+                    if d.kind == 'aug':
+                        out.add(('attr', d.name))
+                    if self.control:
+                        out |= self._control_leaves(d.node_id, depth - 1, _seen)
+        return out
+
+    control = False
+
+    def _control_leaves(self, node_id, depth, _seen):
+        """leaves of the tests that decide whether node_id executes"""
+        out = set()
+        for t, pol in guards_of(self.cfg, node_id):
+            tn = self.cfg[t]
+            if tn.ast is not None and (('guard', t) not in _seen):
+                _seen.add(('guard', t))
+                out |= self.leaves(tn.ast, t, depth, _seen)
         return out
 
 
